@@ -58,10 +58,10 @@ def fill_target(v, target):
     import odml
     kind = v.choice("target.content", 3)
     if kind >= 1:
-        odml.Property(name="p", values=[1, 2], parent=target, unit="mV")
+        odml.Property(name="p", values=[1, 2], parent=target, unit="mV", definition="target definition")
         odml.Property(name="q", values=["x"], parent=target)
     if kind == 2:
-        sub = odml.Section(name="sub", type="t", parent=target)
+        sub = odml.Section(name="sub", type="t", parent=target, definition="target sub")
         odml.Property(name="inner", values=[5], parent=sub)
     return kind
 
@@ -73,8 +73,9 @@ def fill_linking(v, linking):
         odml.Property(name="own", values=[9], parent=linking)
         odml.Section(name="ownsec", type="t", parent=linking)
     elif kind == 2:
-        odml.Property(name="p", values=[7], parent=linking)
-        sub = odml.Section(name="sub", type="t", parent=linking)
+        # same names as the target's children, with attributes that differ from the target's (a strict merge would refuse them)
+        odml.Property(name="p", values=[7], parent=linking, unit="V", definition="own definition")
+        sub = odml.Section(name="sub", type="t", parent=linking, definition="own sub")
         odml.Property(name="mine", values=[8], parent=sub)
     return kind
 
